@@ -64,7 +64,10 @@ def gen_hierarchy(rng, nmax, allow_latemark):
                 mc = True
         nd = rng.choice([0, 1, 1, 2, 3])
         if nd == 0 and len(bases) != 1:
-            nd = 1
+            # no definition of its own under two bases: only with unrelated bases that all have the name
+            anc = [ancestors_of(hosts, b) for b in bases]
+            if not (mc and len(bases) == 2 and not (anc[0] & anc[1]) and all(hosts[b - 1]["hasf"] for b in bases)):
+                nd = 1
         basef = any(hosts[b - 1]["hasf"] for b in bases)
         marked = basef and rng.random() < 0.7
         latemark = allow_latemark and basef and not marked and nd >= 2 and rng.random() < 0.3
@@ -72,7 +75,7 @@ def gen_hierarchy(rng, nmax, allow_latemark):
         hosts.append({"bases": bases, "root": "none", "mc": mc, "body": body, "hasf": bool(body) or basef})
     # reject hierarchies where two bases contribute the same annotation and the body does not override it (statement silent)
     for H in hosts:
-        if any(d["marked"] for d in H["body"]) and len(H["bases"]) > 1:
+        if (any(d["marked"] for d in H["body"]) or not H["body"]) and len(H["bases"]) > 1:
             seen = {}
             own = {d["t"] for d in H["body"]}
             for b in H["bases"]:
@@ -83,10 +86,51 @@ def gen_hierarchy(rng, nmax, allow_latemark):
     for H in hosts:
         H.pop("hasf")
         # an ordinary function (single unmarked definition, or no metaclass) cannot use call_next / recurse
-        if not H["mc"] or (len(H["body"]) == 1 and not H["body"][0]["marked"]):
+        if (not H["mc"] and not (H["body"] and H["body"][-1]["marked"])) or (len(H["body"]) == 1 and not H["body"][0]["marked"]):
             for d in H["body"]:
                 d["body"] = "leaf"
     return hosts
+
+
+def gen_merge_template(rng):
+    """class Final(A', B'): pass  where A' / B' derive (through 0-2 pass-through classes) from two unrelated roots,
+    the second of which declares the method with extend_super (cf. tests: class Four(Two, Three): pass)."""
+    types = rng.sample([1, 2, 3, 4], 4)
+    n1 = 2  # the first root is an overload (a single unmarked definition would be an ordinary function: no merge)
+    mid = [0]
+
+    def d(t, marked, body="leaf"):
+        mid[0] += 1
+        return {"id": f"m{mid[0]}", "t": t, "marked": marked, "body": body}
+
+    hosts = []
+    hosts.append({"bases": [], "root": rng.choice(["meta", "base"]), "mc": True,
+                  "body": [d(types[j], False, rng.choice(["leaf", "next"]) if n1 > 1 else "leaf") for j in range(n1)]})
+    second_plain = rng.random() < 0.5
+    marked = rng.random() < 0.8
+    n2 = 1 if second_plain else rng.randint(1, 2)
+    hosts.append({"bases": [], "root": "none" if second_plain else rng.choice(["meta", "base"]), "mc": not second_plain,
+                  "body": [d(types[2 + j], marked and j == 0) for j in range(n2)]})
+    if not marked and not second_plain and n2 == 1:
+        hosts[1]["body"][0]["body"] = "leaf"
+    a, b = 1, 2
+    for _ in range(rng.randint(0, 2)):
+        hosts.append({"bases": [a], "root": "none", "mc": True, "body": []})
+        a = len(hosts)
+    for _ in range(rng.randint(0, 2)):
+        hosts.append({"bases": [b], "root": "none", "mc": hosts[b - 1]["mc"], "body": []})
+        b = len(hosts)
+    hosts.append({"bases": [a, b], "root": "none", "mc": True, "body": []})
+    if rng.random() < 0.5:
+        hosts.append({"bases": [len(hosts)], "root": "none", "mc": True, "body": [d(types[1] if n1 == 1 else types[3] if n2 == 1 else types[0], True)]})
+    return hosts
+
+
+def ancestors_of(hosts, h):
+    out = {h}
+    for b in hosts[h - 1]["bases"]:
+        out |= ancestors_of(hosts, b)
+    return out
 
 
 def eff_types(hosts, h):
@@ -99,7 +143,10 @@ def eff_types(hosts, h):
         for b in H["bases"]:
             s |= eff_types(hosts, b)
         return s
-    return eff_types(hosts, H["bases"][0]) if H["bases"] else set()
+    s = set()
+    for b in H["bases"]:
+        s |= eff_types(hosts, b)
+    return s
 
 
 def run(prop, tier, seed, replay=None):
@@ -123,7 +170,10 @@ def run(prop, tier, seed, replay=None):
     tries = 0
     while len(jobs) < n and tries < n * 5:
         tries += 1
-        hosts = gen_hierarchy(rng, 4 if not thorough else 6, allow_latemark=(tries % 10 == 0))
+        if tries % 6 == 5:
+            hosts = gen_merge_template(rng)
+        else:
+            hosts = gen_hierarchy(rng, 4 if not thorough else 6, allow_latemark=(tries % 10 == 0))
         if hosts is None:
             continue
         jobs.append({"id": f"C17-{len(jobs)}", "world": {"parents": ARGPAR, "hosts": hosts, "methods": []}, "args": [1, 2, 3, 4]})
